@@ -131,7 +131,8 @@ def pAbsorb (s : State) (k r a b : Nat) : State :=
 
 theorem Struct.absorb {s : State} (h : Struct s) {k : Nat} {pk : Packet} {a b : Nat}
     (hk : s.net[k]? = some pk) (hkind : pk.kind = .up a b) (hr : cls (s.procs pk.dst).st ≠ 0) :
-    Struct (pAbsorb s k pk.dst a b) ∧ cls (s.procs pk.dst).st = 1 ∧ 0 < (s.procs pk.dst).ncl := by
+    Struct (pAbsorb s k pk.dst a b) ∧ cls (s.procs pk.dst).st = 1 ∧ 0 < (s.procs pk.dst).ncl ∧
+      pk.dst < s.n := by
   have hmem := mem_of_getElem? hk
   have hpk := h.pk pk hmem
   unfold PkOK at hpk; rw [hkind] at hpk
@@ -168,7 +169,7 @@ theorem Struct.absorb {s : State} (h : Struct s) {k : Nat} {pk : Packet} {a b : 
     intro q e; simp only [pend, hn, hcls, hg, hUne q e]
   have hpend0 : pend (pAbsorb s k r a b) q0 = 0 ∧ pend s q0 = 1 := by
     unfold pend; rw [hn, hcls, hg, hu0, ← hU0, hu0, ha2, hc1]; simp [hsn]
-  refine ⟨⟨?_, ?_, ?_, ?_, ?_, ?_, ?_, ?_, ?_, ?_⟩, hb1, ?_⟩
+  refine ⟨⟨?_, ?_, ?_, ?_, ?_, ?_, ?_, ?_, ?_, ?_⟩, hb1, ?_, hrn⟩
   · intro k' hk'
     have hm' : k' ∈ s.net := List.mem_of_mem_eraseIdx hk'
     have := h.pk k' hm'
